@@ -25,6 +25,17 @@
 (*      takes part                                                           *)
 (*  ExtendWhileSyncPeerGone       the chain grows after the sync peer left   *)
 (*      and before it is back                                                *)
+(*  HigherConnectsAfterShorterSynced   the client is current with a sync     *)
+(*      peer on a shorter valid chain that does not serve filter headers     *)
+(*      (filter headers behind the block headers) when the honest peer with  *)
+(*      more work connects; the honest chain does not change afterwards      *)
+(*  FilterSyncAtCheckpointTip     the checkpointed filter-header sync starts *)
+(*      with the honest tip exactly on a filter checkpoint height (realised  *)
+(*      with an offset of 0 blocks, i.e. a multiple of 1000)                 *)
+(*  ReorgTakenOverWhileBehind     a reorganisation of the honest chain is    *)
+(*      taken over by a client whose header tip is on the old branch below   *)
+(*      its tip (netsim dates the last header of every reorg branch of >= 4   *)
+(*      blocks before its parent)                                            *)
 (***************************************************************************)
 EXTENDS Client
 
@@ -53,6 +64,14 @@ ShapeStep ==
   \cup (IF a.op \in {"SyncFlt", "FltEnd"} /\ abs.fhs = 1 /\ HonestUp /\ flt' > flt /\ "liarpresent" \in shape
            /\ \E q \in Peers : ps[q] = "up" /\ kind[q] = "cfhlie" /\ HasHdr(q) /\ lk[q] > flt /\ lk[q] <= flt'
       THEN {"DisputeWithHonest"} ELSE {})
+  \cup (IF a.op = "Up" /\ kind[a.p] = "honest" /\ sp # 0 /\ Cur /\ PTip(a.p) > hdrh /\ flt < hdrh
+           /\ pv[sp] # 0 /\ ~CFServer(kind[sp]) /\ br[pv[sp]].bad = 0
+      THEN {"HigherConnectsAfterShorterSynced"} ELSE {})
+  \cup (IF a.op = "FltBegin" /\ long = 1 /\ hdrh = HonestTipH /\ hdrb = OwnerAt(br, hb, hdrh) /\ hdrh % CPI = 0
+      THEN {"FilterSyncAtCheckpointTip"} ELSE {})
+  \cup (IF a.op = "SyncHdr" /\ hdrh' > hdrh + 0 /\ hdrh > 0
+           /\ ForkH(hdrb, hdrh, hdrb', hdrh') < hdrh /\ br[hdrb'].par # 0 /\ pv[a.p] = 0
+      THEN {"ReorgTakenOverWhileBehind"} ELSE {})
   \cup (IF a.op = "Extend" /\ sp = 0 /\ hdrh > 0 /\ \E p \in Peers : kind[p] = "honest" /\ ps[p] = "down"
       THEN {"ExtendWhileSyncPeerGone"} ELSE {})
 
